@@ -18,6 +18,20 @@ Definition exempt : list string := ["snoopy_tsrm_atfork_child"].
 Theorem C16_no_state_calls : (forall f, In f external_calls -> ~ In f state_mutators) /\ (forall f, In f ast_externals -> ~ In f state_mutators).
 Proof. split; apply disjointb_spec; vm_compute; reflexivity. Qed.
 
+(** * no state retained in static storage, no inheritable socket *)
+(** the library defines no object with static storage beyond the inventory of the verified tree (a new file-scope variable or function-local
+    `static` is where a result, a descriptor or a verdict would be kept from one call to the next) *)
+Theorem C16_no_new_retained_state : forall o, In o static_objects -> In o known_static_objects.
+Proof.
+  assert (H : new_static_objects static_objects = []) by (vm_compute; reflexivity).
+  intros o Ho. destruct (str_in o known_static_objects) eqn:E; [apply str_in_In; exact E|].
+  assert (I : In o (new_static_objects static_objects)) by (apply filter_In; split; [exact Ho|rewrite E; reflexivity]).
+  rewrite H in I. destruct I.
+Qed.
+(** every socket() call of the library carries SOCK_CLOEXEC in its type argument (and there is one) *)
+Theorem C16_sockets_cloexec : sockets_cloexec lib_fns = true /\ socket_calls lib_fns <> [].
+Proof. split; [vm_compute; reflexivity|vm_compute; discriminate]. Qed.
+
 (** * every path of every function that touches a resource is balanced *)
 Lemma lib_ok_gen : lib_ok lib_fns ast_externals call_cycles exempt = true.
 Proof. vm_compute. reflexivity. Qed.
@@ -139,6 +153,8 @@ Example C16_n_calls_nonvacuous : exists ns, In ns all_variants /\ In "snoopy_tsr
 Proof. eexists. split; [left; reflexivity|]. vm_compute. tauto. Qed.
 
 Print Assumptions C16_no_state_calls.
+Print Assumptions C16_no_new_retained_state.
+Print Assumptions C16_sockets_cloexec.
 Print Assumptions C16_balanced.
 Print Assumptions C16_loops_explored.
 Print Assumptions C16_indirect_targets_neutral.
